@@ -158,7 +158,10 @@ def gen_resolve_case(rng):
 # that is on the Python path but does not hold the file (the search goes on to the next registered location), and a
 # name nobody can read (IOError naming the locations) - a finite table on the real code and the real file system
 PKGPATH_CASES = [{'dom': 'gin', '_kind': 'pkgpath', 'where': w, 'depth': d, 'ops': [], '_nregs': 0}
-                 for w in ('regular', 'namespace', 'namespace_two_roots', 'shadow_dir_then_location', 'nowhere')
+                 for w in ('regular', 'namespace', 'namespace_two_roots', 'shadow_dir_then_location', 'nowhere',
+                           # the same name looked up twice, the world having changed in between: a file of that name
+                           # appeared in an earlier location; the Python path got a new first root holding the package
+                           'appears_in_earlier_location', 'python_path_changed')
                  for d in (1, 2)]
 
 
@@ -200,10 +203,32 @@ def run_pkgpath_case(case):
       tree('site', False, None)            # on the Python path, but the file is not there
       tree('extra', False, 'location')
       gin.add_config_file_search_path(os.path.join(root, 'extra'))
+    elif w == 'appears_in_earlier_location':
+      tree('locb', False, 'later location')
+      os.makedirs(os.path.join(root, 'loca', *parts), exist_ok=True)
+      gin.add_config_file_search_path(os.path.join(root, 'loca'))
+      gin.add_config_file_search_path(os.path.join(root, 'locb'))
+      gin.parse_config_file(rel)
+      facts['first'] = gin.query_parameter('%WHO')
+      gin.clear_config()
+      tree('loca', False, 'earlier location')
+    elif w == 'python_path_changed':
+      tree('site', True, 'old root')
+      sys.path.insert(0, os.path.join(root, 'site'))
+      gin.parse_config_file(rel)
+      facts['first'] = gin.query_parameter('%WHO')
+      gin.clear_config()
+      tree('site2', True, 'new root')
+      sys.path.insert(0, os.path.join(root, 'site2'))
+      for name in [m for m in sys.modules if m == tag or m.startswith(tag + '.')]:
+        del sys.modules[name]          # the package was never imported by us; be sure of it
+      import importlib
+      importlib.invalidate_caches()
     else:
       tree('site', False, None)
       gin.add_config_file_search_path(os.path.join(root, 'extra'))
-    sys.path.insert(0, os.path.join(root, 'site'))
+    if w != 'python_path_changed':
+      sys.path.insert(0, os.path.join(root, 'site'))
     try:
       gin.parse_config_file(rel)
       facts['outcome'] = gin.query_parameter('%WHO')
@@ -211,7 +236,8 @@ def run_pkgpath_case(case):
       facts['outcome'] = type(e).__name__
       facts['names_locations'] = 'extra' in str(e)
     facts['want'] = {'regular': 'regular', 'namespace': 'namespace', 'namespace_two_roots': 'second root',
-                     'shadow_dir_then_location': 'location', 'nowhere': 'OSError'}[w]
+                     'shadow_dir_then_location': 'location', 'nowhere': 'OSError',
+                     'appears_in_earlier_location': 'earlier location', 'python_path_changed': 'new root'}[w]
   finally:
     sys.path[:] = saved_path
     os.chdir(saved_cwd)
